@@ -97,6 +97,7 @@ def check_chunk(args):
     fails = []
     stats = {"evals": 0, "nontrivial": 0, "printed": 0}
     for ci, case in enumerate(cases):
+        core.tick(case, 300)
         tg = tags_of(case)
         plats = case["plats"]
         cov = {parse_setkey(k): frac(v) for k, v in case["cov"].items()}
